@@ -29,6 +29,9 @@ BWFDOK(in, o) ==
           LET from == in.windows[j][1]  end == in.windows[j][2] IN
           /\ from >= 0 /\ end >= -1
           /\ o.fd[j] = FirstDiffD(in.a, in.b, in.n, from, end)
+    \* the same calls with arguments that share memory (one a substring of the other, or the very same string)
+    \* whenever their values allow it: the result depends on the values only
+    /\ o.fda = o.fd
 TraceBWFD == IsEvent("bwfd") /\ BWFDOK(Ev.in, Ev.out)
 
 BWStrsOK(in, o) ==
@@ -43,6 +46,7 @@ BSCmpOK(in, o) ==
     /\ \A i \in DOMAIN in.items : ItemOK(in.items[i]) /\ o.lens[i] = Len(x(i))
     /\ Len(o.cmp) = Len(in.pairs)
     /\ \A j \in DOMAIN in.pairs : o.cmp[j] = LexCmp(x(in.pairs[j][1] + 1), x(in.pairs[j][2] + 1))
+    /\ o.cmpa = o.cmp        \* the same encodings sharing memory where their bytes allow it: same answers
 TraceBSCmp == IsEvent("bscmp") /\ BSCmpOK(Ev.in, Ev.out)
 
 BSUptoOK(in, o) ==
